@@ -57,6 +57,53 @@ func (p *Program) SQL() *SQLModel {
 			}
 		}
 	}
+	// parametric helpers: unexported functions with an SQL site and enumerable parameters (a state, a set of states,
+	// a column name) that every call site in the package binds to constants; their statements are evaluated per call
+	// site, in the calling operation
+	e.parametric = map[*types.Func]*ast.FuncDecl{}
+	hasSite := map[*types.Func]bool{}
+	for _, s := range e.sites {
+		if s.decl != nil {
+			hasSite[s.decl] = true
+		}
+	}
+	for _, fd := range decls {
+		obj, _ := pkg.TypesInfo.Defs[fd.Name].(*types.Func)
+		if obj == nil || !hasSite[obj] || ast.IsExported(fd.Name.Name) {
+			continue
+		}
+		enum := false
+		for _, f := range fd.Type.Params.List {
+			for _, n := range f.Names {
+				if v, ok := pkg.TypesInfo.Defs[n].(*types.Var); ok {
+					if _, ok := enumParam(v.Type()); ok {
+						enum = true
+					}
+				}
+			}
+		}
+		if !enum {
+			continue
+		}
+		nCalls, allConst := 0, true
+		for _, gd := range decls {
+			ast.Inspect(gd.Body, func(n ast.Node) bool {
+				ce, ok := n.(*ast.CallExpr)
+				if !ok || e.calleeFunc(ce) != obj {
+					return true
+				}
+				nCalls++
+				if _, ok := e.bindParametric(obj, fd, ce); !ok {
+					allConst = false
+				}
+				return true
+			})
+		}
+		if nCalls > 0 && allConst {
+			e.parametric[obj] = fd
+			m.Notes = append(m.Notes, "parametric SQL helper instantiated per call site: "+fd.Name.Name)
+		}
+	}
 	e.sites = nil
 	e.notes = nil
 	e.lastCallSite = map[*ast.CallExpr]int{}
@@ -66,6 +113,9 @@ func (p *Program) SQL() *SQLModel {
 	for _, s := range e.sites {
 		if hasParamSeg(s.query) {
 			continue // body of a wrapper; instantiated at its call sites
+		}
+		if !s.inst && s.decl != nil && e.parametric[s.decl] != nil {
+			continue // body of a parametric helper; instantiated at its call sites
 		}
 		b := bindSite(s)
 		st := parseSQL(b.text)
